@@ -783,6 +783,11 @@ impl<Writer: Write> Muxer<Writer> {
         }
 
         let scaled_pts = (pts * MEDIA_TIMESCALE as f64).round();
+        // A timestamp whose tick value does not fit 64 bits would saturate in the cast
+        // below (and collide with every later timestamp): treat it as invalid input.
+        if scaled_pts >= u64::MAX as f64 {
+            return Err(MuxerError::InvalidVideoPts { pts, frame_index });
+        }
         #[cfg(feature = "verif")]
         crate::verif::cast("api.pts_ticks", scaled_pts as i128, 64, false);
         let pts_units = scaled_pts as u64;
@@ -866,10 +871,17 @@ impl<Writer: Write> Muxer<Writer> {
         }
 
         let scaled_pts = (pts * MEDIA_TIMESCALE as f64).round();
+        let scaled_dts = (dts * MEDIA_TIMESCALE as f64).round();
+        // Tick values that do not fit 64 bits would saturate in the casts below.
+        if scaled_pts >= u64::MAX as f64 {
+            return Err(MuxerError::InvalidVideoPts { pts, frame_index });
+        }
+        if scaled_dts >= u64::MAX as f64 {
+            return Err(MuxerError::InvalidVideoDts { dts, frame_index });
+        }
         #[cfg(feature = "verif")]
         crate::verif::cast("api.pts_ticks", scaled_pts as i128, 64, false);
         let pts_units = scaled_pts as u64;
-        let scaled_dts = (dts * MEDIA_TIMESCALE as f64).round();
         #[cfg(feature = "verif")]
         crate::verif::cast("api.dts_ticks", scaled_dts as i128, 64, false);
         let dts_units = scaled_dts as u64;
@@ -975,6 +987,10 @@ impl<Writer: Write> Muxer<Writer> {
         }
 
         let scaled_pts = (pts * MEDIA_TIMESCALE as f64).round();
+        // Tick values that do not fit 64 bits would saturate in the cast below.
+        if scaled_pts >= u64::MAX as f64 {
+            return Err(MuxerError::InvalidAudioPts { pts, frame_index });
+        }
         #[cfg(feature = "verif")]
         crate::verif::cast("api.pts_ticks", scaled_pts as i128, 64, false);
         let pts_units = scaled_pts as u64;
